@@ -112,7 +112,7 @@ def _flatten_block(stmts: List[ast.stmt]) -> List[ast.stmt]:
     for st in stmts:
         for field in ("body", "orelse", "finalbody"):
             sub = getattr(st, field, None)
-            if isinstance(sub, list) and sub and isinstance(sub[0], ast.stmt) and not isinstance(st, (ast.ClassDef,)):
+            if isinstance(sub, list) and sub and isinstance(sub[0], ast.stmt):
                 setattr(st, field, _flatten_block(sub))
         if isinstance(st, ast.Try):
             for h in st.handlers:
